@@ -139,6 +139,7 @@ impl GraphProp {
                             stale,
                             threads: full_pool(&g0),
                             sched: Sched::Prefix(vec![]),
+                            needed: false,
                         };
                         let (runs, _capped) = dfs(&base, which, cap, &mut ctx.stats, &mut first_fail);
                         scope_runs += runs;
@@ -218,7 +219,7 @@ fn gen_sampled(which: Which) -> impl Fn(&mut Choices) -> GraphCase {
             let n = c.below(24);
             Sched::Stream((0..n).map(|_| c.raw()).collect())
         };
-        GraphCase { graph: g, inputs, recursive, stale: c.chance(1, 2), threads, sched }
+        GraphCase { graph: g, inputs, recursive, stale: c.chance(1, 2), threads, sched, needed: c.chance(1, 4) }
     }
 }
 
@@ -228,7 +229,7 @@ impl Prop for GraphProp {
             Which::C02 => PropMeta {
                 id: "C02",
                 level: "exploration",
-                rule: "cases = (dependency DAG, requested subset, stale-or-absent pre-existing outputs, completion order). Exhaustive scope: every labelled DAG on <=3 (thorough <=4) files x every non-empty requested subset x {absent, stale pre-seeded outputs} x EVERY order in which gated worker tasks can complete (DFS by re-execution under the schedule controller, pool large enough for the full order space); edges alternate between `include X` and `after X` + `run cat X`. Sampled scope: generated DAGs of 3-6 files x random schedules x pool sizes {1,2,3,full} and free-running real concurrency (1-16 threads). Oracle: on success every required output equals the reference model (= one-at-a-time processing in dependency order; a stale or partial dependency changes the bytes), and on the hook trace the final pass of A begins only after the final pass of each dependency of A has ended. Non-trivial = at least one edge between required files and at least one step with >=2 gated tasks; distinct by (graph, request, schedule) by construction in the DFS, by hash when sampled.",
+                rule: "cases = (dependency DAG, requested subset, stale-or-absent pre-existing outputs, completion order). Exhaustive scope: every labelled DAG on <=3 (thorough <=4) files x every non-empty requested subset x {absent, stale pre-seeded outputs} x EVERY order in which gated worker tasks can complete (DFS by re-execution under the schedule controller, pool large enough for the full order space); edges alternate between `include X` and `after X` + `run cat X`. Sampled scope: generated DAGs of 3-6 files in nested directories (dependencies named through `../`), inputs by output name, by source name or as a recursive directory scan, build or --needed mode, x random schedules x pool sizes {1,2,3,full} and free-running real concurrency (1-16 threads); thorough adds sampled 5-file DAGs with a capped DFS. Oracle: on success every required output equals the reference model (= one-at-a-time processing in dependency order; a stale or partial dependency changes the bytes), and on the hook trace the final pass of A begins only after the final pass of each dependency of A has ended. Non-trivial = at least one edge between required files and at least one step with >=2 gated tasks; distinct by (graph, request, schedule) by construction in the DFS, by hash when sampled.",
                 assumptions: vec![
                     "the controller serialises task executions (sound for projects whose tasks write only their own outputs); truly overlapping execution is sampled by the free-running runs",
                     "hooks: feature `verif` (add-only)",
@@ -284,6 +285,7 @@ impl Prop for GraphProp {
                     stale: r >> 50 & 1 == 1,
                     threads: full_pool(&g),
                     sched: Sched::Prefix(vec![]),
+                    needed: r >> 61 & 3 == 0,
                 };
                 dfs(&base, which, 400, &mut ctx.stats, &mut first_fail);
                 if k % 8 == 0 {
@@ -301,7 +303,7 @@ impl Prop for GraphProp {
         if which == Which::C02 && !ctx.quick {
             // sampled labelled DAGs on 5 files (random order + random lower-triangular edge set),
             // full request, every completion order up to a cap
-            let n_samples = ctx.share(2_500);
+            let n_samples = ctx.share(800);
             let mut first_fail = None;
             for k in 0..n_samples {
                 let mut r = mix_bits(crate::wctx::mix(ctx.seed, "C02-5", ctx.shard, k));
@@ -331,8 +333,9 @@ impl Prop for GraphProp {
                     stale: bits >> 40 & 1 == 1,
                     threads: full_pool(&g),
                     sched: Sched::Prefix(vec![]),
+                    needed: bits >> 41 & 3 == 0,
                 };
-                dfs(&base, which, 1_500, &mut ctx.stats, &mut first_fail);
+                dfs(&base, which, 600, &mut ctx.stats, &mut first_fail);
                 if first_fail.is_some() {
                     break;
                 }
